@@ -135,7 +135,7 @@ def execute_mat(case):
     from tensorly.tenalg import proximal as P
     M = mat_of(case)
     m, n = M.shape
-    run = {"raised": False, "exc": "", "size": 0, "out": [], "again": [], "again_raised": False, "orth": 0}
+    run = {"raised": False, "exc": "", "size": 0, "out": [], "again": [], "again_raised": False, "orth": 0, "ip": 0}
     try:
         if case["op"] == "svt":
             out = P.svd_thresholding(M.copy(), case["p"] / case["q"])
@@ -148,6 +148,7 @@ def execute_mat(case):
             if case["op"] == "procrustes":
                 g = out.T @ out if m >= n else out @ out.T
                 run["orth"] = qs(np.max(np.abs(g - np.eye(g.shape[0]))), S)
+                run["ip"] = qs(float(np.sum(out * M)), S)          # <Q, M>, to be compared with the nuclear norm
                 if np.all(np.isfinite(out)):
                     try:
                         run["again"] = _qmat(P.procrustes(out.copy()))
